@@ -359,6 +359,12 @@ func (e *Exec) load(st *State, p Val) Val {
 	}
 	v := e.project(e.rootLoad(st, a), a.Steps)
 	out := Val{T: el, S: e.sc.define("ld", e.sc.sortOf(el), v)}
+	if a.Key == "G|net.IPv4zero" && len(a.Steps) == 0 && e.mode == ModeBV {
+		// standard library fact: net.IPv4zero is the (non-nil) unspecified address 0.0.0.0
+		e.eng.spec.need(e.sc, "ip_unspec")
+		arr, off, ln := e.sliceArr(st, out, tByte)
+		e.assume(st, fmt.Sprintf("(and (not (= (s-base %s) 0)) (ip_unspec %s %s %s))", out.S, arr, off, ln))
+	}
 	if needsWF(out.T, e.mode) {
 		if f := e.wfB(st, out, e.refBound(st, a.Key)); f != "true" {
 			e.assume(st, f)
@@ -580,12 +586,17 @@ func (e *Exec) check(st *State, kind, label, goal string, pos token.Pos) {
 	if goal == "true" || st.pc == "false" {
 		return
 	}
+	sg, extra := e.sc.skolemize(goal)
 	o := &Obligation{
 		Name: e.oblName(kind, label), Kind: kind, Func: e.fn.String(), Pos: e.eng.posString(pos),
-		Prefix: e.sc.mark(), Goal: goal, PC: st.pc, Script: e.sc, Expect: "unsat", Props: e.propsDef,
+		Prefix: e.sc.mark(), Goal: sg, PC: st.pc, Script: e.sc, Expect: "unsat", Props: e.propsDef, Extra: extra,
 	}
 	e.obls = append(e.obls, o)
 	st.pc = e.sc.define("pc", "Bool", and(st.pc, goal))
+	if strings.Contains(goal, "(forall ((q.") {
+		// the established fact as an instantiable assumption of the continuing path
+		e.sc.assert(imp(st.pc, goal))
+	}
 }
 
 // checkProps is like check but with explicit property tags and no path narrowing.
